@@ -885,6 +885,17 @@ def run(ctx):
     ham_ops = ctx.scale(400, 1500)
     total_blend = []
     validation_failed = False
+    pending = []
+    val_pool = ThreadPoolExecutor(max_workers=max(2, NCPU // 2))
+    stop_validation = []
+
+    def validate_job(h):
+        if stop_validation:
+            return None, "skipped"      # an earlier trace was rejected / the validator timed out: one report is enough
+        v, e = hammer_validate(ml_exe, h)
+        if v is None or v["bad"]:
+            stop_validation.append(1)
+        return v, e
     for i in range(n_ham):
         threads = rng.choice([2, 3, 4, 8, 12, 16])
         size = rng.choice([512, 516, 1000, 1024, 65536])
@@ -910,18 +921,26 @@ def run(ctx):
             total_blend.append((args, bl))
             note_spec(dict(kind=bl[0]["kind"], hammer_args=args, first=bl[0], count=len(bl)), "blend:%s" % bl[0].get("key"))
         if ml_exe and not validation_failed:
-            v, e = hammer_validate(ml_exe, h)
-            if v is None:
-                validation_failed = True     # do not spend the budget on further runs of a broken validator
-                disagreements.append(dict(kind="hammer-validate", args=args, note=e))
-            else:
-                ctx.traces_validated += v["validated"]
-                ctx.count("hammer_refresh_stores_in_closure", v["refresh_stores"])
-                if not v["fixpoint"]:
-                    disagreements.append(dict(kind="hammer-closure", args=args, note="refresh closure did not reach a fixed point"))
-                if v["bad"]:
+            pending.append((args, val_pool.submit(validate_job, h)))
+            # validations run in the background while the next hammer runs; look at finished ones
+            # so that a broken validator stops the submission of further work early
+            for a_, fut in pending:
+                if fut.done() and fut.result()[0] is None:
                     validation_failed = True
-                    disagreements.append(dict(kind="hammer-trace", args=args, not_allowed_by_Atomic_v=v["bad"][:5], count=len(v["bad"])))
+    for a_, fut in pending:
+        v, e = fut.result()
+        if v is None and e == "skipped":
+            continue
+        if v is None:
+            disagreements.append(dict(kind="hammer-validate", args=a_, note=e))
+            continue
+        ctx.traces_validated += v["validated"]
+        ctx.count("hammer_refresh_stores_in_closure", v["refresh_stores"])
+        if not v["fixpoint"]:
+            disagreements.append(dict(kind="hammer-closure", args=a_, note="refresh closure did not reach a fixed point"))
+        if v["bad"]:
+            disagreements.append(dict(kind="hammer-trace", args=a_, not_allowed_by_Atomic_v=v["bad"][:5], count=len(v["bad"])))
+    val_pool.shutdown()
     ctx.log("stage 4d (%d hammer runs) finished" % n_ham)
     ctx.notes["distribution"] = {"leaf_tuples": n_leaf, "index_tuples": per * len(sizes), "sessions": len(sessions), "hammer_runs": n_ham}
 
